@@ -110,9 +110,13 @@ class Scen(CompScenario):
                         f"{self.cls}.read returned {got}, expected {head and head[1]} (buffer {state}, write ran={w})",
                         port="read")
             self.delivered.append(got)
-        if pk and head is not None:  # the statement says only that peek does not consume: the value is just counted
+        if pk and head is not None:
+            # "peek" = what read would hand out, without consuming it: an executed peek must show the value a read
+            # in the same cycle returns (the statement calls peek the non-consuming read)
             got = tuple(obs[f"peek.o.{f}"] for f in self.fields)
-            self.hit("peek_value_is_head" if got == head[1] else "peek_value_is_not_head")
+            self.expect(got == head[1], "data-mismatch",
+                        f"{self.cls}.peek returned {got}, read would hand out {head[1]} (buffer {state}, write ran={w})", port="peek")
+            self.hit("peek_value_is_head")
 
         # coverage: every (model state, request subset) pair, and the events the statement names
         mask = sum(en[p] << k for k, p in enumerate(PORTS))
